@@ -193,6 +193,29 @@ def pk(pb, pc, pd, pe, a, b, c, d, e, f):
         if (obj.a, obj.b, obj.c, obj.d, obj.e, obj.f) != exp: return False
     return True
 
+# ---- an optional parameter the constructor itself must fill (attrs factory taking self), followed by further parameters
+@attr.s(auto_attribs=True)
+class TS:
+    a: int
+    t: int = attr.ib(default=attr.Factory(lambda self: self.a + 100, takes_self=True))
+    z: int = 7
+    w: int = attr.ib(default=attr.Factory(lambda self: self.z + 1, takes_self=True))
+    y: int = 9
+TS_LOADERS = {dt: Retort(debug_trail=dt).get_loader(TS) for dt in DT_MODES}
+def takes_self(pt, pz, pw, py, a, t, z, w, y):
+    for dt in DT_MODES:
+        data = {"a": a}
+        if pt: data["t"] = t
+        if pz: data["z"] = z
+        if pw: data["w"] = w
+        if py: data["y"] = y
+        o = outcome(TS_LOADERS[dt], data)
+        if o[0] != "ok": return False
+        obj = o[2]
+        ez = z if pz else 7
+        if (obj.a, obj.t, obj.z, obj.w, obj.y) != (a, t if pt else a + 100, ez, w if pw else ez + 1, y if py else 9): return False
+    return True
+
 # ---- default factories: fresh result for each loaded object
 @dataclasses.dataclass
 class DF:
@@ -247,6 +270,10 @@ def build(tier, seed):
           "return pk(pb, pc, pd, pe, a, b, c, d, e, f)", timeout=tmo,
           family="end-to-end: positional-only / keyword-only parameters with skipped optionals",
           bounds="all 8 presence subsets of 3 optional parameters (2 pos-or-kw after a defaulted pos-only, 1 kw-only), symbolic int values, 3 debug modes")
+    me.ob("takes_self_factory", "pt: bool, pz: bool, pw: bool, py: bool, a: int, t: int, z: int, w: int, y: int",
+          "return takes_self(pt, pz, pw, py, a, t, z, w, y)", timeout=tmo,
+          family="end-to-end: optional parameters the constructor must fill itself (factory taking self) between other parameters",
+          bounds="all 16 presence subsets of 4 optional parameters, symbolic int values, 3 debug modes")
     me.ob("factories_fresh", "a: int, b: int", "return df(a, b)", timeout=tmo,
           family="end-to-end: default factories give a fresh object per load", bounds="list/dict/set factories, two loads")
     return Plan("C08", [m, me], assumptions=["constructor instrumentation via __post_init__/__init__ call log"],
